@@ -387,6 +387,29 @@ func genFlags(r *prng.R, max int) string {
 	return strings.Join(fl, ",")
 }
 
+// catch-all flows ("*", ".*", "") next to other filter groups: manage-all must be requested whatever the order in
+// which the registration function visits the groups
+func genCatchAllCase(r *prng.R) []string {
+	ops := []string{"mode flows"}
+	n := r.Range(2, 4)
+	at := r.Intn(n)
+	var pats []string
+	var methods [][]string
+	for i := 0; i < n; i++ {
+		p := genPattern(r, kSafe)
+		if i == at {
+			p = prng.Pick(r, []string{"*", ".*", "*", ""})
+		}
+		ms := genMethods(r)
+		pats = append(pats, p)
+		methods = append(methods, ms)
+		ops = append(ops, fmt.Sprintf("flow name=f%d url=%s methods=%s", i+1, proto.Enc(p), encMethods(ms)))
+	}
+	ops = append(ops, "build")
+	reqs := genReqs(r, pats, methods, r.Range(4, 8))
+	return append(append(ops, reqs...), reqOp(prng.Pick(r, methodsAll), "other.org/"+prng.Pick(r, segPlain)))
+}
+
 func genPolicyCase(r *prng.R) []string {
 	ops := []string{"mode policy"}
 	k := pickKind(r)
@@ -695,6 +718,10 @@ func gen(r *prng.R, f proto.Flags, emit func(proto.Case)) {
 	for k := 0; k < nFlows; k++ {
 		rr := r.Fork()
 		out("fl", genFlowsCase(rr), rr)
+	}
+	for k := 0; k < nFlows/25+20; k++ {
+		rr := r.Fork()
+		out("ca", genCatchAllCase(rr), rr)
 	}
 	for k := 0; k < nPol; k++ {
 		rr := r.Fork()
